@@ -557,7 +557,8 @@ def run_bx_determinism(name, maxlen):
     a, b = runs
     r.obligations = a['histories'] * 2 + 1
     r.bounded = ('BOUNDED: every definition history of <= %d requests over {add a|b|c with shape 1/1, 4/4 or 0/1; remove id 0..2; close with simple or basic}; '
-                 'offsets, text rendering and generated code under three fragment selections (default, +clone, +clone+serde)' % maxlen)
+                 'plus %d wide histories (5..12 additions per variant, 10 shape patterns over 7 shapes, both strategies, optional second variant); '
+                 'offsets, text rendering and generated code under three fragment selections (default, +clone, +clone+serde)' % (maxlen, a.get('wide_histories', 0)))
     r.extra = {'evaluations': a['histories'] * 2, 'distinct_nontrivial': a['histories'],
                'rule': 'one evaluation = one history replayed and generated once; each history is replayed twice per process, in two processes',
                'samples': [a.get('sample'), {'digest_process_1': a['digest'], 'digest_process_2': b['digest'], 'generated_texts_per_process': a['texts']}]}
